@@ -65,6 +65,10 @@ def inline_body(prog, body, known, depth=0, stack=(), force=None):
         todo.append((bi, key))
     if not todo:
         return None
+    if not hasattr(prog, 'inlined_into'):
+        prog.inlined_into = {}
+    for bi, key in todo:
+        prog.inlined_into.setdefault(key, set()).add(prog.key_of(body))
     nj = dict(j)
     nj['locals'] = list(j['locals'])
     nj['blocks'] = [dict(b) for b in j['blocks']]
